@@ -110,7 +110,16 @@ func (p *PortSet) Union(other *PortSet) {
 
 // ContainedIn: return true if current PortSet object is contained in input PortSet object
 func (p *PortSet) ContainedIn(other *PortSet) bool {
-	return p.Ports.IsSubset(other.Ports)
+	if !p.Ports.IsSubset(other.Ports) {
+		return false
+	}
+	// a named port is contained in the other set only if the other set holds that name too, or allows all ports
+	for namedPort := range p.NamedPorts {
+		if !other.NamedPorts[namedPort] && !other.Ports.Equal(MakePortSet(true).Ports) {
+			return false
+		}
+	}
+	return true
 }
 
 // Intersection: update current PortSet object as intersection with input PortSet object
